@@ -29,8 +29,15 @@ fn main() {
 }
 
 /// sysoracle::classify() reports every failure of a history that ever selected bottom alignment
-/// under one lump class; split it into the narrow, decidable classes of the three defects found
-/// there (text below the padding: fixed by 951c29f; kept rows vs padding; empty-frame drift).
+/// under one lump class; split it into narrow, decidable classes:
+///  * 'bottom-alignment-kept-rows-misplaced' (open finding D22): NOT a log-line failure, and the
+///    history has, under bottom alignment, a painted frame with padding rows (shift > 0: an empty
+///    write_line that does not follow a write_str) that is the latest frame when a member bar is
+///    dropped, or that is painted after a member bar was dropped (a zombie reaped with Keep while
+///    shift > 0);
+///  * 'bottom-println-text-below-padding' (fixed by 951c29f) / 'bottom-alignment-empty-frame-drift'
+///    (fixed by 8b11f76): must not occur any more, reported as violations if they do;
+///  * 'bottom-alignment-other': anything else.
 pub fn reclassify_bottom(s: &mut Session, cases: &[Case]) {
     const LUMP: &str = "bottom-alignment-shrunken-frame";
     let mut moved: Vec<String> = vec![];
@@ -38,30 +45,52 @@ pub fn reclassify_bottom(s: &mut Session, cases: &[Case]) {
         let narrow = if f.detail.contains("the lines printed so far are") || f.detail.contains("the first rows of the screen are") {
             "bottom-println-text-below-padding"
         } else {
-            // replay: was there, under bottom alignment, a painted draw without any line while rows
-            // were erased (only padding written)?
-            let empty_frame = cases.iter().find(|c| describe(c) == f.case).map_or(false, |c| {
+            let (mut empty_frame, mut kept) = (false, false);
+            if let Some(c) = cases.iter().find(|c| describe(c) == f.case) {
                 let obs = run_case(c);
                 let mut bottom = false;
-                let mut hit = false;
+                let mut padded_frame_seen = false;
+                let mut dropped_member = false;
+                let mut member = vec![false; c.bars.len()];
                 for ((_, op), o) in c.ops.iter().zip(obs.iter()) {
-                    if let Op::SetAlign(b) = op {
-                        bottom = *b;
+                    match op {
+                        Op::SetAlign(b) => bottom = *b,
+                        Op::Insert(_, b) => member[*b] = true,
+                        Op::Remove(b) => member[*b] = false,
+                        _ => {}
                     }
                     let painted = o.emitted.iter().any(|x| *x == TOp::Flush);
                     let cleared = o.emitted.iter().any(|x| *x == TOp::Clear);
                     let wrote = o.emitted.iter().any(|x| matches!(x, TOp::Str(_)));
-                    let padded = o.emitted.iter().any(|x| matches!(x, TOp::Line(l) if l.is_empty()));
-                    if bottom && painted && cleared && padded && !wrote {
-                        hit = true;
+                    let padding = o.emitted.iter().enumerate().any(|(i, x)| {
+                        matches!(x, TOp::Line(l) if l.is_empty()) && (i == 0 || !matches!(o.emitted[i - 1], TOp::Str(_)))
+                    });
+                    if painted {
+                        // the last painted frame has padding rows (shift > 0)
+                        padded_frame_seen = bottom && padding;
+                        if padded_frame_seen && dropped_member {
+                            kept = true; // a zombie may be reaped by this padded frame
+                        }
+                        if padded_frame_seen && cleared && !wrote {
+                            empty_frame = true;
+                        }
+                    }
+                    if let Op::Drop(b) = op {
+                        if member[*b] {
+                            dropped_member = true;
+                            if padded_frame_seen {
+                                kept = true; // reaped at the head right after a padded frame
+                            }
+                        }
                     }
                 }
-                hit
-            });
-            if empty_frame {
+            }
+            if kept {
+                "bottom-alignment-kept-rows-misplaced"
+            } else if empty_frame {
                 "bottom-alignment-empty-frame-drift"
             } else {
-                "bottom-alignment-kept-rows-misplaced"
+                "bottom-alignment-other"
             }
         };
         f.class = narrow.to_string();
